@@ -318,6 +318,10 @@ theorem acs_map_wire :
       acsWireOn treeVariant Gen.vtACSNames e (pairs e.altChars) = true := by
   decide
 
+/-- the premise of `acs_map_wire` is satisfiable on either tree (xterm), and the entries it may exclude exist (vt220) -/
+example : (∃ e ∈ Gen.db, e.name = "xterm" ∧ (Gen.acsStripsPadding = true ∨ (e.name ≠ "vt220" ∧ e.name ≠ "vt420")) ∧
+      (pairs e.altChars).length ≥ 20) ∧ (∃ e ∈ Gen.db, e.name = "vt220" ∧ acsPadded e = true) := by decide
+
 /-- **acs_map_wire, repaired variant**: for the model variant with fixes/C17-acs-strip-padding.patch, EVERY database entry,
 every listed pair, no exception, whatever the tree under test (it is what `acs_map_wire` reduces to on a patched tree). -/
 theorem acs_map_wire_stripped :
